@@ -3,3 +3,4 @@ pub mod ratelimiter;
 pub mod breaker_model;
 pub mod breaker_conc;
 pub mod retry;
+pub mod timelimiter;
